@@ -1289,15 +1289,15 @@ pub fn accepted_family(rng: &mut Rng) -> Cfg {
 const INTERNAL_NT_NAMES: &[&str] = &[
     "State", "Node", "Action", "RuleKind", "Eof", "Quasiterminal", "QuasiterminalKind",
     "NonterminalKind", "S", "R", "ACTION_TABLE", "GOTO_TABLE", "Terminal", "Shift", "Reduce",
-    "Accept", "S0", "R0", "Self_", "T", "Error",
+    "Accept", "S0", "R0", "Self_", "T", "Error", "_1", "_2_3",
 ];
 const INTERNAL_T_NAMES: &[&str] = &[
     "Eof", "Terminal", "State", "Node", "Action", "S0", "Err_", "Shift", "Reduce", "Accept", "AB",
-    "A_b", "Ab", "A_B", "XMLTag", "Xml_tag", "X_m_l_tag", "Quasiterminal", "Eof2", "Node2",
+    "A_b", "Ab", "A_B", "XMLTag", "Xml_tag", "X_m_l_tag", "Quasiterminal", "Eof2", "Node2", "_4",
 ];
 const FIELD_NAMES: &[&str] = &[
     "left", "right", "inner", "head", "tail", "value", "states", "nodes", "rule_kind", "src", "t0",
-    "node", "new_state", "quasiterminals", "top_state", "self_", "x", "y_1", "_z",
+    "node", "new_state", "quasiterminals", "top_state", "self_", "x", "y_1", "_z", "_5", "__",
 ];
 const VARIANT_NAMES: &[&str] = &["Nil", "Cons", "One", "Many", "Wrap", "Leaf", "Alt", "Case", "Empty", "Some", "None", "Ok"];
 const ATTRS: &[&str] = &[
